@@ -30,6 +30,7 @@ type ccase struct {
 	Op     string `json:"op"` // sip | drbg | table | sample | intn | intrange | float64 | rangecover
 	Seed   string `json:"seed,omitempty"`
 	Seed2  string `json:"seed2,omitempty"` // concurrent: the second (tiny-table) seed
+	Hist   []hstep `json:"hist,omitempty"` // history: a sequence of New / Reset calls in one process
 	Min    int64  `json:"min,omitempty"`
 	Max    int64  `json:"max,omitempty"`
 	Biased bool   `json:"biased,omitempty"`
@@ -39,7 +40,20 @@ type ccase struct {
 	Msg    string `json:"msg,omitempty"`
 }
 
+// hstep is one step of a history: New(seed, min, max, biased), or Reset(seed) on the live
+// instance that was created earlier in the history with the same (min, max, biased).
+type hstep struct {
+	Seed   string `json:"seed"`
+	Min    int64  `json:"min"`
+	Max    int64  `json:"max"`
+	Biased bool   `json:"biased"`
+	Reset  bool   `json:"reset,omitempty"`
+}
+
 func (c ccase) key() string {
+	if c.Op == "history" {
+		return fmt.Sprintf("history|%+v", c.Hist)
+	}
 	return fmt.Sprintf("%s|%s%s|%d|%d|%v|%d|%s|%s|%s", c.Op, c.Seed, c.Seed2, c.Min, c.Max, c.Biased, c.N, c.Tape, c.Key, c.Msg)
 }
 
@@ -718,6 +732,60 @@ func checkConcurrent(r *vlib.Run, c ccase) {
 	}
 }
 
+// checkHistory: the tables are a function of (seed, min, max, biased) alone — whatever was
+// constructed before in the same process, through New or through Reset on a live instance.
+// Every step is judged by the table oracle for ITS bounds and compared with the model.
+func checkHistory(r *vlib.Run, d *vlib.Driver, c ccase) {
+	type cfg struct {
+		min, max int64
+		biased   bool
+	}
+	live := map[cfg]*probdist.WeightedDist{}
+	configs := map[string]map[cfg]bool{}
+	reuse := false
+	r.Count("history-steps", strconv.Itoa(len(c.Hist)))
+	for i, st := range c.Hist {
+		k := cfg{st.Min, st.Max, st.Biased}
+		if configs[st.Seed] == nil {
+			configs[st.Seed] = map[cfg]bool{}
+		}
+		if len(configs[st.Seed]) > 0 && !configs[st.Seed][k] {
+			reuse = true
+		}
+		configs[st.Seed][k] = true
+		var w *probdist.WeightedDist
+		via := "New"
+		var pan string
+		if st.Reset && live[k] != nil {
+			via = "Reset"
+			w = live[k]
+			pan = protect(func() { w.Reset(mustSeed(st.Seed)) })
+		} else {
+			w, pan = safeNew(mustSeed(st.Seed), st.Min, st.Max, st.Biased)
+		}
+		if pan != "" {
+			r.Violate("new-panics", "impl-oracle", fmt.Sprintf("history step %d: %s(%s, %d, %d, %v) panicked: %s", i, via, st.Seed, st.Min, st.Max, st.Biased, pan), c)
+			return
+		}
+		live[k] = w
+		t := getTables(w)
+		r.Validated(1)
+		if sig, txt := tableOracle(t, st.Min, st.Max); sig != "" {
+			r.Violate(sig+"-after-history", "impl-oracle", fmt.Sprintf("history step %d of %d: %s(seed %s, bounds %d..%d, biased %v) after the same process built other configurations: %s", i, len(c.Hist), via, st.Seed, st.Min, st.Max, st.Biased, txt), c)
+			return
+		}
+		// S: equals a construction in a history-free way (fresh seed-equal object built first
+		// thing for this configuration is not available here, so compare with the model)
+		rep := d.Call("pd.new %s %d %d %d", st.Seed, st.Min, st.Max, b2i(st.Biased))
+		if rep != t.String() {
+			kind, sig := "correspondence", "table-model-impl-disagree-after-history"
+			r.Violate(sig, kind, fmt.Sprintf("history step %d: %s(seed %s, bounds %d..%d, biased %v): %s", i, via, st.Seed, st.Min, st.Max, st.Biased, firstDiff(t.String(), rep)), c)
+			return
+		}
+	}
+	r.Case(c.key(), reuse)
+}
+
 // findTableSeed draws seeds until the table for the bounds has between lo and hi values.
 func findTableSeed(rng *vlib.Rng, min, max int64, lo, hi int) string {
 	for i := 0; i < 20000; i++ {
@@ -748,6 +816,8 @@ func runCase(r *vlib.Run, d *vlib.Driver, c ccase) {
 		checkSample(r, d, c)
 	case "concurrent":
 		checkConcurrent(r, c)
+	case "history":
+		checkHistory(r, d, c)
 	case "intn":
 		checkIntn(r, d, c)
 	case "intrange":
@@ -973,6 +1043,27 @@ func main() {
 		mn := int64(hrng.Range(-20, 20))
 		runCase(r, d, ccase{Op: "rangecover", Min: mn, Max: mn + int64(hrng.Intn(40))})
 	}
+	// --- histories: the same few seeds through New and Reset with several bound pairs and both
+	// bias settings, in varying order, within one process
+	hrng2 := rng.Fork()
+	hcfg := []struct {
+		min, max int64
+		biased   bool
+	}{{0, 1448, false}, {0, 100, false}, {21, 1448, true}, {0, 1448, true}, {5, 7, false}, {0, 100, true}, {21, 1448, false}, {0, 2, true}}
+	for i, n := 0, r.Scale(40, 600); i < n; i++ {
+		nseeds := hrng2.Range(1, 6)
+		seeds := make([]string, nseeds)
+		for j := range seeds {
+			seeds[j] = hex.EncodeToString(hrng2.Bytes(24))
+		}
+		var hist []hstep
+		for j, m := 0, hrng2.Range(4, 14); j < m; j++ {
+			k := hcfg[hrng2.Intn(len(hcfg))]
+			hist = append(hist, hstep{Seed: seeds[hrng2.Intn(nseeds)], Min: k.min, Max: k.max, Biased: k.biased, Reset: hrng2.Intn(2) == 0})
+		}
+		runCase(r, d, ccase{Op: "history", Hist: hist})
+	}
+
 	// --- Reset vs Sample, truly concurrent (small fixed counts; many more when searching)
 	qrng := rng.Fork()
 	resets := int64(r.Scale(300, 3000))
